@@ -196,7 +196,9 @@ class Kernel:
 
     def spawn(self, fn, name, role, priv, start_delay=0.0, image=None):
         p = Proc(self, self.next_pid, name, role)
-        self.next_pid += 1
+        # process ids are handed out by the OS: consecutive on a quiet machine, with gaps when other processes start in between
+        gap = self.cfg.get('pid_gap', 0)
+        self.next_pid += 1 + (self.cs.choose(gap + 1, 'pidgap') if gap else 0)
         p.priv = priv
         if image is not None:
             p.image = image
